@@ -541,6 +541,26 @@ def _char_preds(e, c, a):
                        'is_ascii_whitespace': 'isspace', 'is_ascii_uppercase': 'isupper', 'is_ascii_lowercase': 'islower'}[meth])()
 
 
+@model(r'core::num::<impl u8>::(is_ascii|is_ascii_digit|is_ascii_alphabetic|is_ascii_whitespace|is_ascii_uppercase|is_ascii_lowercase|is_ascii_alphanumeric|is_ascii_punctuation|is_utf8_char_boundary)')
+def _u8_preds(e, c, a):
+    meth = c.rsplit('::', 1)[1]
+    b = deref_all(a[0])
+    b8 = Int(b.t, 8)
+    if meth == 'is_ascii':
+        return e.binop('Lt', b8, Int(0x80, 8))
+    if meth == 'is_utf8_char_boundary':
+        return b_or(e.binop('Lt', b8, Int(0x80, 8)), e.binop('Ge', b8, Int(0xC0, 8)))
+    if meth == 'is_ascii_digit':
+        return b_and(e.binop('Ge', b8, Int(0x30, 8)), e.binop('Le', b8, Int(0x39, 8)))
+    v = e.concretize(b8, 256)
+    ch = chr(v)
+    if v >= 0x80:
+        return False
+    import string
+    return {'is_ascii_alphabetic': ch.isalpha(), 'is_ascii_whitespace': ch in ' \t\n\x0c\r', 'is_ascii_uppercase': ch.isupper(), 'is_ascii_lowercase': ch.islower(),
+            'is_ascii_alphanumeric': ch.isalnum(), 'is_ascii_punctuation': ch in string.punctuation}[meth]
+
+
 # ---------------------------------------------------------------- Cow<str>
 @model(r'Cow::<.*str>::to_mut')
 def _cow_to_mut(e, c, a):
@@ -588,6 +608,12 @@ def _graphemes(e, c, a):
     def nextfn(e_, it):
         if it.k >= len(offs) - 1:
             return none()
+        if callable(plan):
+            k2 = plan(it.k, offs)
+            lo = offs[it.k]; hi = offs[k2]
+            it.k = k2
+            e_.stub_hit('grapheme oracle consulted')
+            return some(StrRef(r.s, r.lo + lo, r.lo + hi))
         if plan is not None:
             # the harness fixed one segmentation of this text beforehand (any segmentation consistent with the UAX #29 facts it states);
             # the oracle answers according to it, wherever it is asked
